@@ -95,6 +95,8 @@ def rand_leaf(rng, name, merge_n=None):
         d = falsy_value(t)
     if d is None:
         d = L.rand_value(rng, t)
+    if t["k"] == "float" and rng.random() < 0.15:
+        d = {"t": "float", "v": "-0.0"}
     if merge_n and t["k"] == "list" and rng.random() < 0.5:
         d = {"t": "list", "v": [L.rand_value(rng, t["item"]) for _ in range(merge_n)]}
     fac = d["t"] == "list" or (d["t"] != "none" and rng.random() < 0.25)
@@ -358,16 +360,43 @@ def run_one(case):
     import simple_parsing as sp
     from simple_parsing import ArgumentParser, ConflictResolution
     from simple_parsing.wrappers.field_wrapper import ArgumentGenerationMode, DashVariant, NestedMode
-    from implutil import canon
+    import dataclasses as _dc
+
+    from implutil import canon as _canon, set_current_ns
 
     ns = {}
     exec(compile(classes_src(case["forest"]), "<c01>", "exec", dont_inherit=True), ns)
+    set_current_ns(ns)      # implutil.canon marks Enum members of a same-named class that is not the one declared in this case
+
+    def canon(v):
+        """implutil.canon, plus: a dataclass instance must be an instance of THIS case's class of that name, containers keep
+        their element canonicalisation"""
+        if _dc.is_dataclass(v) and not isinstance(v, type):
+            c = type(v).__name__
+            if ns.get(c) is not type(v):
+                c += "!not-the-declared-class"
+            fs = []
+            for f in _dc.fields(v):
+                try:
+                    fs.append([f.name, canon(getattr(v, f.name))])
+                except AttributeError:
+                    fs.append([f.name, {"t": "unset"}])
+            return {"t": "dc", "c": c, "v": fs}
+        if type(v) in (list, tuple):
+            return {"t": "list" if type(v) is list else "tuple", "v": [canon(x) for x in v]}
+        return _canon(v)
     cfg = case["cfg"]
     kw = dict(conflict_resolution=ConflictResolution[cfg["cr"]], argument_generation_mode=ArgumentGenerationMode[cfg["gen"]],
               nested_mode=NestedMode[cfg["nm"]], add_option_string_dash_variants=DashVariant[cfg["dash"]])
     defaults = [eval(inst_src(i), ns) if i is not None else None for _, _, i in case["forest"]]
     want = [canon(dflt) if dflt is not None else canon(ns[c["c"]]()) for (_, c, _), dflt in zip(case["forest"], defaults)]
     info = {"want": want}
+
+    def intact():
+        """the caller's default instances and the class defaults are what they were before parsing (parsing must not write into them)"""
+        return [canon(dflt) if dflt is not None else canon(ns[c["c"]]()) for (_, c, _), dflt in zip(case["forest"], defaults)] == want
+
+    info["intact"] = intact
 
     def go():
         if cfg["api"] == "parse":
@@ -382,6 +411,21 @@ def run_one(case):
     return go, info
 
 
+MESSAGES = [("Not the same number of default values and destinations", "default-count-differs-from-destination-count"),
+            ("list.remove(x): x not in list", "list.remove-x-not-in-list"),
+            ("Namespace should not already have", "namespace-collision"),
+            ("Duplicate wrappers found", "duplicate-wrappers")]
+
+
+def message_tag(msg):
+    """which raise site: the known message texts by name, anything else by its first words"""
+    for text, tag in MESSAGES:
+        if text in msg:
+            return tag
+    words = "".join(ch if ch.isalnum() else "-" for ch in msg[:40]).strip("-")
+    return "msg-" + (words or "empty")
+
+
 def run_impl(cases):
     from implutil import outcome_of, reset_simple_parsing_state
 
@@ -393,8 +437,25 @@ def run_impl(cases):
         except Exception as e:  # noqa: BLE001 - the generated classes themselves do not build: harness error, made visible
             out.append({"outcome": ["raise", "HARNESS:" + type(e).__name__ + ":" + str(e)[:200]], "values": None, "want": None})
             continue
-        r = outcome_of(go)
-        out.append({"outcome": r[:2] if r[0] != "ok" else ["ok"], "values": r[1] if r[0] == "ok" else None, "want": info["want"]})
+        site = []
+
+        def go_traced():
+            try:
+                return go()
+            except Exception as e:  # noqa: BLE001 - remember WHERE it was raised, then let outcome_of classify it
+                import traceback
+                fr = [f for f in traceback.extract_tb(e.__traceback__) if "simple_parsing" in f.filename]
+                site.append(fr[-1].name if fr else "outside-simple_parsing")
+                raise
+
+        r = outcome_of(go_traced)
+        try:
+            ok = bool(info["intact"]())
+        except Exception as e:  # noqa: BLE001
+            ok = False
+        out.append({"outcome": r[:2] if r[0] != "ok" else ["ok"], "values": r[1] if r[0] == "ok" else None, "want": info["want"],
+                    "msg": ((site[0] if site else "?") + ":" + message_tag(r[2])) if r[0] == "raise" and len(r) > 2 else None,
+                    "defaults_intact": ok})
     return out
 
 
@@ -433,6 +494,8 @@ def py_spec(case, obs):
         if df:
             return (f"destination {d!r} ({'default instance given' if i is not None else 'no default instance'}), "
                     f"attribute {d}{df[0]}: expected {df[1]}, observed {df[2]} under {case['cfg']}")
+    if obs.get("defaults_intact") is False:
+        return f"parsing [] changed the caller's default instance or the class defaults (they no longer equal {want}) under {case['cfg']}"
     return None
 
 
@@ -467,20 +530,28 @@ def merge_cause(case):
     return "other"
 
 
+def as_modelled(case, obs):
+    """does the run behave exactly as the model of the code (with the listed ALWAYS_MERGE findings in it) predicts?"""
+    try:
+        from props import c01_codemodel as M
+        return M.predict(case) == M.observed(obs)
+    except Exception:  # noqa: BLE001 - no verdict: never suppress
+        return False
+
+
 def signature(case, obs, reason):
+    """<where>:<symptom>[:<raise site>:<message>]:<as-modelled | NOT-as-modelled>.  Only `...:as-modelled` signatures are listed as
+    known findings: a listed finding is suppressed only while the code behaves EXACTLY as the recorded defect does on that input."""
     o = obs["outcome"]
     merge = case["cfg"]["cr"] == "ALWAYS_MERGE"
+    tail = "as-modelled" if as_modelled(case, obs) else "NOT-as-modelled"
     if o[0] != "ok":
         if len(o) > 1 and str(o[1]).startswith("HARNESS:"):
             return "harness"
-        kind = ":".join(str(x) for x in o[:2])
+        kind = ":".join(str(x) for x in o[:2]) + (":" + obs["msg"] if obs.get("msg") else "")
         if not merge:
             return f"crash:{kind}"
-        cause = merge_cause(case)
-        if cause == "other" and kind == "raise:AssertionError" and any(
-                _has(c, lambda x: x["k"] == "leaf" and x["d"]["t"] == "list") for _, c, _ in case["forest"]):
-            return "merge:list-default-dealt:crash:raise:AssertionError"                      # DESIGN 5 #4, Optional[List[..]] = [..]
-        return f"merge:{cause}:crash:{kind}"
+        return f"merge:{merge_cause(case)}:crash:{kind}:{tail}"
     want = spec_want(case)
     if obs["want"] != want:
         return "harness"
@@ -488,16 +559,17 @@ def signature(case, obs, reason):
         df = first_diff(w, ov)
         if df:
             path, a, b = df
+            if a.get("t") == "none" and b.get("t") == "dc":
+                sym = "None-comes-back-as-instance"
+            elif a.get("t") == "dc" and b.get("t") == "none":
+                sym = "instance-comes-back-None"
+            else:
+                sym = "wrong-value"
             if not merge:
-                if a.get("t") == "dc" and b.get("t") == "none":
-                    return "optional-member-with-default:None"                                # DESIGN 5 #3 (repaired)
-                return "value:" + _kind(a) + "->" + _kind(b)
-            cause = merge_cause(case)
-            if cause == "other" and a.get("t") == "list" and (b in a["v"] or b.get("t") == "list"):
-                return "merge:list-default-dealt"                                             # DESIGN 5 #4
-            if cause == "optional-member" and a.get("t") == "none" and b.get("t") == "dc":
-                return "merge:optional-member:None-comes-back-as-instance"
-            return f"merge:{cause}:wrong-value"
+                return "value:" + sym
+            return f"merge:{merge_cause(case)}:{sym}:{tail}"
+    if obs.get("defaults_intact") is False:
+        return "defaults-mutated"
     return "other"
 
 
